@@ -249,6 +249,7 @@ def _direct(g: list[dict], ops: list[list] | None, chooser: Callable | None) -> 
     info: dict[str, Any] = {"tasks": [], "events": [], "loops": 1}
     done_ops: list[list] = []
     ctxs: dict[int, contextvars.Context] = {}  # finished invocation -> the context it ended with
+    cancelled_by_op: set[int] = set()  # invocations the schedule cancelled (op "cancel"), as opposed to the teardown
     w = World(g)
     wf = SimpleNamespace(_resource_manager=w.manager)
     lines: list[str] = []
@@ -276,7 +277,7 @@ def _direct(g: list[dict], ops: list[list] | None, chooser: Callable | None) -> 
             if isinstance(e, asyncio.CancelledError):
                 raise
         finally:
-            if outcome != "cancelled":  # only the teardown cancels here
+            if outcome != "cancelled" or tid in cancelled_by_op:  # otherwise: the teardown's cancellation
                 rec["outcome"] = outcome
                 w.events.append(f"fin:{tid}:{outcome}")
                 # what a task created by this one from now on would start with (asyncio.create_task copies the
@@ -300,7 +301,8 @@ def _direct(g: list[dict], ops: list[list] | None, chooser: Callable | None) -> 
                 op = ops[st["i"]]
                 st["i"] += 1
             else:
-                op = chooser(sorted(w.gates), offset + len(tasks), sorted(ctxs))  # type: ignore[misc]
+                live = [offset + i for i, t in enumerate(tasks) if not t.done()]
+                op = chooser(sorted(w.gates), offset + len(tasks), sorted(ctxs), live)  # type: ignore[misc]
                 if op is None or len(done_ops) > 200:
                     st["more"] = False
                     break
@@ -327,12 +329,22 @@ def _direct(g: list[dict], ops: list[list] | None, chooser: Callable | None) -> 
                     # the task tree: invocation `parent` resolved its resources and then created this task
                     # (a step body running a child workflow, user code warming a resource before a fan-out)
                     tasks.append(loop.create_task(invocation(tid, op[1], list(op[2])), context=ctxs[parent].copy()))
-            elif op[0] == "open" and isinstance(op[1], int):
+            elif op[0] == "open" and len(op) == 2 and isinstance(op[1], int):
                 gate = w.gates.get(op[1])
                 if gate is None:
                     lines.append("disabled")
                     continue
                 gate.set()
+            elif op[0] == "cancel" and len(op) == 2 and isinstance(op[1], int):
+                # the invocation's task is cancelled where it is suspended: at the await inside an async factory
+                # (a step worker cancelled by cancel_run / the workflow timeout / cleanup_tasks) or in the queue
+                # of the scope lock
+                i = op[1] - offset
+                if not 0 <= i < len(tasks) or tasks[i].done():
+                    lines.append("disabled")
+                    continue
+                cancelled_by_op.add(op[1])
+                tasks[i].cancel()
             else:
                 lines.append("bad-op")
                 continue
@@ -349,14 +361,15 @@ def _direct(g: list[dict], ops: list[list] | None, chooser: Callable | None) -> 
 
 def run_direct(g: list[dict], ops: list[list]) -> tuple[list[str], dict]:
     """ops: ["spawn", "p"|"b", [rids]] | ["spawn", "p"|"b", [rids], parent] (created by the finished
-    invocation `parent`, i.e. in a copy of its context) | ["open", tid] | ["loop"].  Returns (lines, info); info has
+    invocation `parent`, i.e. in a copy of its context) | ["open", tid] | ["cancel", tid] (the unfinished
+    invocation is cancelled where it is suspended) | ["loop"].  Returns (lines, info); info has
     per-task outcomes, injected objects and the full event list (for the monitors)."""
     lines, info, _ = _direct(g, ops, None)
     return lines, info
 
 
 def explore_direct(g: list[dict], chooser: Callable) -> list[list]:
-    """Let `chooser(gates, ntasks, finished)` pick each op from what the real execution offers."""
+    """Let `chooser(gates, ntasks, finished, live)` pick each op from what the real execution offers."""
     return _direct(g, None, chooser)[2]
 
 
@@ -366,9 +379,9 @@ def op_line(op: list) -> str:
         return ""
     if op[0] == "spawn":
         return f"spawn|{op[1]}|{','.join(map(str, op[2]))}" + (f"|{op[3]}" if len(op) == 4 else "")
-    if op[0] == "open":
-        return f"open|{op[1]}"
-    return str(op[1])
+    if op[0] in ("open", "cancel") and len(op) == 2:
+        return f"{op[0]}|{op[1]}"
+    return str(op[1] if len(op) > 1 else op[0])
 
 
 # --------------------------------------------------------------------------
